@@ -350,6 +350,29 @@ class TermGen:
         op = r.choice(['<=', '>=', '<=', '>=', '<', '>', '='])
         return T('app', 'Bool', head=op, args=[lhs, rhs] if r.random() < 0.85 else [rhs, lhs])
 
+    # ---------------------------------------------------------------- dense EUF atoms ("uf-dense" mode)
+    def uf_atom(self):
+        """(Dis)equalities between a few constants of one uninterpreted sort and shallow applications over them, repeated
+        arguments included: congruence closure with many merges, explanations that run through congruence edges."""
+        r = self.rng
+        u = r.choice(self.sig.sorts)
+        cs = self.sig.consts[u][:4]
+        fs = [f for f in self.sig.funs if f[2] == u and all(a == u for a in f[1])]
+
+        def leaf():
+            return T('var', u, val=r.choice(cs))
+
+        def term(d):
+            if not fs or d <= 0 or r.random() < 0.35:
+                return leaf()
+            f = r.choice(fs)
+            if len(f[1]) >= 2 and r.random() < 0.3:
+                x = term(d - 1)
+                return T('app', u, head=f[0], args=[x] * len(f[1]))      # the same argument in every position
+            return T('app', u, head=f[0], args=[term(d - 1) for _ in f[1]])
+        a, b = term(2), term(2)
+        return T('app', 'Bool', head='=' if r.random() < 0.8 else 'distinct', args=[a, b])
+
     # ---------------------------------------------------------------- dense array atoms ("ax-dense" mode)
     def ax_atom(self):
         r = self.rng
@@ -472,6 +495,17 @@ class TermGen:
                     break
             self.sig.consts[s] = lst
         return T('let', 'Bool', args=[body], binds=binds)
+
+
+def strip_names(t):
+    """Copy of t without (! .. :named ..) annotations (a formula that is re-used must not introduce its names again)."""
+    if t.op == 'named':
+        return strip_names(t.args[0])
+    if not t.args and t.op != 'let':
+        return t
+    n = T(t.op, t.sort, head=t.head, args=[strip_names(a) for a in t.args], val=t.val, name=t.name,
+          binds=[(nm, strip_names(b)) for nm, b in t.binds] if t.binds else t.binds)
+    return n
 
 
 def negate(t):
